@@ -1,9 +1,180 @@
 package main
 
+import (
+	"encoding/json"
+	"fmt"
+	"os"
+	"os/exec"
+	"path/filepath"
+	"regexp"
+	"strconv"
+	"strings"
+	"time"
+)
+
 func replayGeneric(w *World, r *UnitResult, ob *Obligation) map[string]interface{} {
-	return map[string]interface{}{"confirmed": false, "note": "no replay generator for this obligation shape yet; the solver model is in solver_output"}
+	return map[string]interface{}{"confirmed": false, "note": "no replay generator for this obligation shape; the solver model (when there is one) is in solver_output"}
 }
 
+// replayBPF replays a counterexample of a cBPF lemma on the real program: the frame bytes, the frame length and the
+// filter configuration are read from the solver's model, the program taken from the source under test is run on the
+// x/net/bpf virtual machine inside an in-package Go test injected with `go test -overlay` (nothing is written into the
+// repository), and its verdict is compared with the reference predicate's value in the same model.
 func replayBPF(w *World, ob bpfOb) map[string]interface{} {
-	return map[string]interface{}{"confirmed": false, "note": "bpf replay not implemented yet; the solver model (frame bytes) is in solver_output"}
+	out := map[string]interface{}{"confirmed": false}
+	// ask the solver for the concrete values
+	var gv strings.Builder
+	gv.WriteString("(get-value (len")
+	for _, k := range []string{"k_srcAddr", "k_dstAddr", "k_srcPort", "k_dstPort"} {
+		if strings.Contains(ob.Query, "(declare-const "+k+" ") {
+			gv.WriteString(" " + k)
+		}
+	}
+	const nBytes = 160
+	for i := 0; i < nBytes; i++ {
+		gv.WriteString(fmt.Sprintf(" (select pkt #x%08x)", i))
+	}
+	gv.WriteString("))\n(get-value (" + ob.Acc + "))\n(get-value (" + ob.Ref + "))\n")
+	tmp, err := os.MkdirTemp("", "govc-bpf-replay")
+	if err != nil {
+		out["note"] = err.Error()
+		return out
+	}
+	defer os.RemoveAll(tmp)
+	qf := filepath.Join(tmp, "q.smt2")
+	os.WriteFile(qf, []byte("(set-option :produce-models true)\n"+ob.Query+"(check-sat)\n"+gv.String()), 0o644)
+	res, _ := exec.Command("z3-new", "-T:60", qf).CombinedOutput()
+	txt := string(res)
+	if !strings.HasPrefix(strings.TrimSpace(txt), "sat") {
+		out["note"] = "could not re-obtain a model for value extraction: " + trunc(txt, 300)
+		return out
+	}
+	val := func(name string) (uint64, bool) {
+		re := regexp.MustCompile(`\(` + regexp.QuoteMeta(name) + `\s+#x([0-9a-fA-F]+)\)`)
+		m := re.FindStringSubmatch(txt)
+		if m == nil {
+			return 0, false
+		}
+		v, _ := strconv.ParseUint(m[1], 16, 64)
+		return v, true
+	}
+	ln, _ := val("len")
+	frame := make([]byte, nBytes)
+	for i := 0; i < nBytes; i++ {
+		v, _ := val(fmt.Sprintf("(select pkt #x%08x)", i))
+		frame[i] = byte(v)
+	}
+	if ln > nBytes {
+		// bytes beyond the inspected prefix do not matter to these programs; keep the length, pad with zeros
+		if ln > 65535 {
+			ln = 65535
+		}
+		frame = append(frame, make([]byte, int(ln)-nBytes)...)
+	}
+	frame = frame[:ln]
+	cfg := map[string]uint64{}
+	for _, k := range []string{"k_srcAddr", "k_dstAddr", "k_srcPort", "k_dstPort"} {
+		if v, ok := val(k); ok {
+			cfg[k] = v
+		}
+	}
+	prog := strings.TrimSuffix(strings.TrimPrefix(ob.Name, "packets."), "#C12.exact")
+	var hexs []string
+	for _, b := range frame {
+		hexs = append(hexs, fmt.Sprintf("0x%02x", b))
+	}
+	var progExpr string
+	if prog == "GenerateTCP4Filter" {
+		ip := func(v uint64) string {
+			return fmt.Sprintf("netip.AddrFrom4([4]byte{%d, %d, %d, %d})", byte(v>>24), byte(v>>16), byte(v>>8), byte(v))
+		}
+		progExpr = fmt.Sprintf("func() []bpf.RawInstruction { r, err := (FilterConfig{Src: netip.AddrPortFrom(%s, %d), Dst: netip.AddrPortFrom(%s, %d)}).GenerateTCP4Filter(); if err != nil { panic(err) }; return r }()",
+			ip(cfg["k_srcAddr"]), cfg["k_srcPort"], ip(cfg["k_dstAddr"]), cfg["k_dstPort"])
+	} else {
+		progExpr = prog
+	}
+	test := `package packets
+
+import (
+	"fmt"
+	"net/netip"
+	"testing"
+
+	"golang.org/x/net/bpf"
+)
+
+var _ = netip.AddrFrom4
+
+func TestGovcReplayBPF(t *testing.T) {
+	raw := ` + progExpr + `
+	ins, ok := bpf.Disassemble(raw)
+	if !ok {
+		t.Fatal("program does not disassemble")
+	}
+	vm, err := bpf.NewVM(ins)
+	if err != nil {
+		t.Fatal(err)
+	}
+	frame := []byte{` + strings.Join(hexs, ", ") + `}
+	n, err := vm.Run(frame)
+	if err != nil {
+		t.Fatal(err)
+	}
+	fmt.Printf("GOVC-REPLAY accepted=%v\n", n > 0)
+}
+`
+	tf := filepath.Join(tmp, "zz_govc_replay_test.go")
+	os.WriteFile(tf, []byte(test), 0o644)
+	repo := repoDir()
+	ov, _ := json.Marshal(map[string]interface{}{"Replace": map[string]string{filepath.Join(repo, "packets", "zz_govc_replay_test.go"): tf}})
+	ovf := filepath.Join(tmp, "ov.json")
+	os.WriteFile(ovf, ov, 0o644)
+	cmd := exec.Command("go", "test", "-overlay", ovf, "-vet=off", "-count=1", "-timeout", "60s", "-v", "-run", "TestGovcReplayBPF", "./packets")
+	cmd.Dir = repo
+	cmd.Env = append(os.Environ(), "GOFLAGS=-mod=mod", "GOPROXY=off")
+	done := make(chan struct{})
+	var log []byte
+	go func() { log, _ = cmd.CombinedOutput(); close(done) }()
+	select {
+	case <-done:
+	case <-time.After(120 * time.Second):
+		if cmd.Process != nil {
+			cmd.Process.Kill()
+		}
+		out["note"] = "replay timed out"
+		return out
+	}
+	out["replay_log"] = trunc(string(log), 2000)
+	out["frame_hex"] = fmt.Sprintf("%x", frame)
+	out["frame_len"] = ln
+	out["config"] = cfg
+	m := regexp.MustCompile(`GOVC-REPLAY accepted=(true|false)`).FindStringSubmatch(string(log))
+	if m == nil {
+		out["note"] = "replay test did not run to completion"
+		return out
+	}
+	accepted := m[1] == "true"
+	out["program_accepts_on_real_vm"] = accepted
+	// the last two get-value answers are the model's view of "program accepts" and of the reference predicate
+	bools := regexp.MustCompile(`\)\s+(true|false)\)\)`).FindAllStringSubmatch(txt, -1)
+	if len(bools) < 2 {
+		out["note"] = "could not read the model's verdicts"
+		return out
+	}
+	modelAcc := bools[len(bools)-2][1] == "true"
+	refVal := bools[len(bools)-1][1] == "true"
+	out["model_program_accepts"] = modelAcc
+	out["reference_predicate_value"] = refVal
+	out["go_test"] = test
+	if accepted != modelAcc {
+		out["note"] = "the real VM disagrees with the verifier's semantics of the program on this frame: the counterexample does not replay (machinery fault, not a finding)"
+		return out
+	}
+	if accepted == refVal {
+		out["note"] = "real program and reference predicate agree on this frame: the counterexample does not replay"
+		return out
+	}
+	out["confirmed"] = true
+	out["note"] = fmt.Sprintf("real program run on the x/net/bpf VM: accepted=%v while the property's reference predicate is %v for this frame and configuration", accepted, refVal)
+	return out
 }
